@@ -17,7 +17,13 @@ git apply MUTATION/patch.diff || echo "patch.diff does not apply"
 cargo test -j 8 --offline "$@" 2>&1 | grep -E "^test |test result|panicked|error" | head -20
 echo "== full suite WITH the change, without the demo (expect 283 passed, 3 failed)"
 git apply -R MUTATION/demo.diff
-cargo nextest run --workspace --no-fail-fast --test-threads 8 --offline 2>&1 | grep -E "Summary|FAIL" | sort -u | head -20
+cargo nextest run --workspace --no-fail-fast --tool-config-file pb:/w/lib/nextest.toml --profile pb --test-threads 8 --offline 2>&1 | grep -E "Summary|FAIL|TIMEOUT" | sort -u | tee /tmp/confirm-$ID.fails | head -20
+# tests other than the 3 baseline failures that failed or timed out (machine load): re-run each alone
+for t in $(grep -E "FAIL|TIMEOUT" /tmp/confirm-$ID.fails | grep -v -E "command_line|not_authenticated_" | awk '{print $NF}' | sort -u); do
+  echo "== re-run alone: $t"
+  cargo nextest run --workspace --no-fail-fast --tool-config-file pb:/w/lib/nextest.toml --profile pb --offline -E "test(=$t)" 2>&1 | grep -E "Summary|FAIL|TIMEOUT" | sort -u | head -5
+done
+rm -f /tmp/confirm-$ID.fails
 git checkout -- . ; git clean -fdq -e MUTATION -e target
 echo "== done"
 } > "$OUT" 2>&1
